@@ -323,4 +323,49 @@ func init() {
 		Outside:     []string{"more than 3 stages / 1 key per kind", "what the commands then see in their process environment (C09)", "the CLI echo path"},
 		Assumptions: []string{"runner.Runner replaced by a recording stand-in that reads t.Env / t.Variables / t.Dir at the call", "real: config.buildTask, config.buildPipeline, Scheduler.Schedule/runStage, variables.Variables (sync.Map intrinsic)"},
 		Replay:      map[string]*ReplaySpec{"*": {PkgDir: "internal/config", File: "C08_replay_test.go", Test: "TestVerifReplayC08"}}})
+
+	c11jobs := func(tier string) []*Job {
+		js := []*Job{
+			{Pkg: pkgRunner, Func: "VerifC11", Args: []int64{0, 1, 0, 2}, Timeout: 20 * time.Minute},
+			{Pkg: pkgRunner, Func: "VerifC11", Args: []int64{0, 3, 0, 1}, Timeout: 20 * time.Minute},
+			{Pkg: pkgRunner, Func: "VerifC11", Args: []int64{0, 0, 1, 2}, Timeout: 20 * time.Minute},
+			{Pkg: pkgRunner, Func: "VerifC11", Args: []int64{2, 1, 0, 1}, Timeout: 20 * time.Minute},
+			{Pkg: pkgRunner, Func: "VerifC11", Args: []int64{1, 2, 0, 2}, Timeout: 20 * time.Minute},
+		}
+		if tier == "thorough" {
+			js = append(js, &Job{Pkg: pkgRunner, Func: "VerifC11", Args: []int64{2, 2, 0, 2}, Timeout: 90 * time.Minute, MaxSteps: 2000000000},
+				&Job{Pkg: pkgRunner, Func: "VerifC11", Args: []int64{0, 4, 0, 2}, Timeout: 60 * time.Minute},
+				&Job{Pkg: pkgRunner, Func: "VerifC11", Args: []int64{3, 1, 1, 1}, Timeout: 90 * time.Minute, MaxSteps: 2000000000})
+		}
+		return js
+	}
+	register(&PropSpec{ID: "C11", Jobs: c11jobs,
+		Covers: []string{"C11.producer-succeeded", "C11.producer-failed"},
+		Bounds: map[string]interface{}{
+			"quick":    "producer with 2 commands x {no, 1, 2} variations, every executed command printing 0..2 (0..1 for 2 variations) arbitrary symbolic bytes and succeeding or failing, allow_failure symbolic; producer name of 0..3 symbolic printable-ASCII characters, with and without exportAs; a consumer task run afterwards by the same runner",
+			"thorough": "2 variations with 0..2 bytes per command, 3 variations, names of 4 characters",
+		},
+		Outside:     []string{"byte-exactness of bytes.Buffer and of the interpreter's writes (bytes.Buffer is modelled as string concatenation)", "non-ASCII task names, outputs longer than 2 bytes per command (64 KiB)", "that dependent stages run after the producer (C01)", "the claim is at wiring level: which writer / variable receives which text"},
+		Assumptions: []string{"stub: Execute writes the symbolic bytes to job.Stdout and returns them as the command's output", "regexp [^a-zA-Z0-9_] ReplaceAllString and strings.ToUpper: engine intrinsics (per-byte, ASCII)", "io.MultiWriter: real SSA"},
+		Replay:      map[string]*ReplaySpec{"*": {PkgDir: "pkg/runner", File: "C11_replay_test.go", Test: "TestVerifReplayC11"}}})
+
+	c13jobs := func(tier string) []*Job {
+		js := []*Job{
+			{Pkg: pkgConfig, Func: "VerifC13", Args: []int64{1, 0}, Timeout: 30 * time.Minute},
+			{Pkg: pkgConfig, Func: "VerifC13", Args: []int64{0, 0}, Timeout: 30 * time.Minute},
+		}
+		if tier == "thorough" {
+			js = append(js, &Job{Pkg: pkgConfig, Func: "VerifC13", Args: []int64{1, 2}, Timeout: 90 * time.Minute})
+		}
+		return js
+	}
+	register(&PropSpec{ID: "C13", Jobs: c13jobs,
+		Covers: []string{"C13.a-command-overran", "C13.after-hook-overran", "C13.overrun-failed-the-task", "C13.overrun-fails-even-with-allow-failure", "C13.within-deadline-unaffected"},
+		Bounds: map[string]interface{}{
+			"quick":    "task with a before hook, two commands and an after hook; timeout absent, or present with an arbitrary symbolic duration (64-bit); the clock is a symbolic non-decreasing instant; every command has a symbolic duration and either overruns its context's deadline (cut short with the deadline error) or finishes with success / non-zero status; allow_failure symbolic",
+			"thorough": "two variations (4 commands)",
+		},
+		Outside:     []string{"that the process is actually killed shortly after the deadline, and that the interpreter reports an overrun as a context error rather than an exit status (a child that exits on SIGINT is reported by mvdan.cc/sh as an ordinary status - read in interp/handler.go, not encodable)", "wall-clock units", "the claim is at wiring level: every job carries the timeout, each Execute derives a fresh deadline of the full duration, and the runner reacts correctly to the deadline error"},
+		Assumptions: []string{"context.WithTimeout intrinsic: deadline = now + d", "stub: interp.Runner.Run returns context.DeadlineExceeded iff start + duration > deadline", "time.Now: arbitrary non-decreasing instants"},
+		Replay:      map[string]*ReplaySpec{"*": {PkgDir: "internal/config", File: "C13_replay_test.go", Test: "TestVerifReplayC13"}}})
 }
